@@ -346,9 +346,18 @@ def c12(tier, seed):
     if tier != 'quick':
         plan.append(('UO3', 3, dict(ncfg=200, k1_ops=overlay.HIST_OPS + overlay.OBS_OPS, k2=5)))
     from . import transfer
+    from . import faults
+    fu = UNIVERSES['UO3']()
+    fops = [(op, v) for op in faults.OPS1 for v in fu.vars]
+    fshs = shapes(fu)
+    fcases = [{'universe': 'UO3', 'config': cfg_, 'state': sh, 'ops': fops, 'props': ['C12']} for cfg_ in ('plain', 'alt') for sh in fshs[::(3 if tier == 'quick' else 1)]]
+    ocfgs = overlay.layer_configs(fu, 2)
+    for oc in ocfgs[::(12 if tier == 'quick' else 2)]:
+        fcases.append({'universe': 'UO3', 'config': 'ovl', 'state': oc, 'ops': fops, 'props': ['C12']})
     tc = transfer.transfer_cases(['same_mem', 'two_mem', 'same_alt', 'same_altalt', 'mem_to_alt'] if tier == 'quick' else transfer.PAIRS, ['C12'], tier, seed)
     return run_onestep('C12', tier, seed, ['mem', 'alt:/a'], ['mem', 'alt:/a', 'alt:/a/b', 'altalt'], ALL_OPS, overlay_plan=plan,
-                       more=[(transfer.run_transfer_case, tc, 'transfer operations between instance pairs (error-path monitor)')])
+                       more=[(transfer.run_transfer_case, tc, 'transfer operations between instance pairs (error-path monitor)'),
+                             (faults.run_fault_case, fcases, 'error-path monitor under one injected underlying failure at every call position')])
 
 
 @prop('C11')
@@ -448,8 +457,14 @@ def c20(tier, seed):
             cases.append({'universe': uname, 'config': 'ovl', 'state': cfg, 'pre': [('remove_dir_all' if dict((a, b) for a, b, c in cfg)[pv] == 'd' else 'remove_file', pv)],
                           'ops': mut if tier != 'quick' else rng.sample(mut, 14) + [('write', pv), ('create_dir', pv)]})
     ck.add(run_cases(prog, faults.run_fault_case, cases), 'one injected failure at every position k of every underlying call sequence')
+    from . import transfer
+    ut = UNIVERSES['UT']()
+    tsh = [sh for sh in shapes(ut) if not any(v in dict(sh) for v in ('x', 'x_b', 'x_b_c')) and 'a' in dict(sh)]
+    tops = [('copy_file', 'f', 'x'), ('move_file', 'f', 'x'), ('copy_file', 'a_b', 'x'), ('move_file', 'a_b_c', 'x'), ('copy_dir', 'a', 'x'), ('move_dir', 'a', 'x')]
+    tcases = [{'universe': 'UT', 'config': 'plain', 'state': sh, 'ops': tops} for sh in (tsh if tier != 'quick' else tsh[::2])]
+    ck.add(run_cases(prog, faults.run_fault_case, tcases), 'copy_file/move_file/copy_dir/move_dir under one injected failure at every call position')
     ck.bounds = {'universe': uname, 'faults_per_operation': 1, 'configs': ['VfsPath composites over a failing MemoryFS', 'AltrootFS over it', 'OverlayFS over two of them (fault in either layer)'],
-                 'operations': faults.OPS1, 'not_yet': 'copy_file/move_file/copy_dir/move_dir under faults'}
+                 'operations': faults.OPS1 + faults.OPS2}
     ck.assumptions = COMMON_ASSUMPTIONS[:4] + ['a failing underlying call returns io::Error(Other) without touching the filesystem']
     ck.rule = 'a state = (configuration, tree / layer assignment); a transition = one (operation, target, failing call index k) run; k ranges over all calls of the fault-free run'
     return ck.finish(prog)
